@@ -38,3 +38,12 @@ PROPS['C16'] = dict(
     assumptions=[],
     explanation="",
 )
+
+PROPS['C14'] = dict(
+    units=list(iodrawer.ILOG_UNITS),
+    extra=[iodrawer.ilog_grammar_bounded],
+    level='proof',
+    min_obligations=100,
+    assumptions=[],
+    explanation="",
+)
